@@ -12,6 +12,7 @@ package main
 
 import (
 	"fmt"
+	"math/big"
 	"strconv"
 	"strings"
 )
@@ -422,11 +423,11 @@ func (sp *specParser) primary() *Expr {
 	case tInt:
 		v, err := strconv.ParseInt(t.s, 0, 64)
 		if err != nil {
-			u, err2 := strconv.ParseUint(t.s, 0, 64)
-			if err2 != nil {
+			b, ok := new(big.Int).SetString(t.s, 0)
+			if !ok {
 				sp.fail("bad int %q", t.s)
 			}
-			return &Expr{Op: "int", S: strconv.FormatUint(u, 10)}
+			return &Expr{Op: "int", S: b.String()}
 		}
 		return &Expr{Op: "int", S: strconv.FormatInt(v, 10)}
 	case tChar:
